@@ -8,6 +8,7 @@ import (
 
 	"github.com/openacid/low/iohelper"
 
+	"verif/gen"
 	"verif/mc"
 )
 
@@ -147,7 +148,7 @@ func errClass(err error) string {
 }
 
 func c18Buf(n int, salt int) []byte {
-	b := make([]byte, n)
+	b := gen.DirtyBytes(make([]byte, n)) // spare capacity holding a canary: only p[:len(p)] may be written out
 	for i := range b {
 		b[i] = byte('A' + (salt*7+i)%26)
 	}
